@@ -96,6 +96,7 @@ def connect_body(k, world):
             d['recorded.' + p_] = c.post.get('client', f_).leaf() == c.a[p_]
         L1 = c.post.get(*CNS).leaf()
         x = z3.Const('cl_x', V)
+        d['reconnection-effort-left-alone'] = z3.And(c.post.get(*RTASK).leaf() == c.pre.get(*RTASK).leaf(), sv_equiv(c.post.get(*TASKS), c.pre.get(*TASKS)))
         d['recorded.namespaces-as-a-list'] = z3.And(smt.kind(L1) == smt.K_LIST, z3.If(is_str(c), z3.And(smt.vlen(L1) == 1, smt.vseq(L1)[0] == c.a.namespaces), L1 == c.a.namespaces))
         return d
 
